@@ -91,7 +91,7 @@ def gen_edges(uname, timeout=1800):
     return ep
 
 
-def sample_edges(uname, k, rnd, pred=None, frac=0.5):
+def sample_edges(uname, k, rnd, pred=None, frac=0.5, all_if_leq=0):
     """k seed-sampled histories of the edge cover (all of them if k is None or >= size).  Every edge
     carries the result the specification gives its last call; `pred(result, history)` selects the
     edges that exercise the property at hand: up to frac*k of the sample is drawn from those, the
@@ -100,7 +100,7 @@ def sample_edges(uname, k, rnd, pred=None, frac=0.5):
     with open(ep) as f:
         lines = f.readlines()
     total = len(lines)
-    if k is None or k >= total:
+    if k is None or k >= total or total <= all_if_leq:      # small covers are replayed completely, whatever the tier
         return [json.loads(l)["h"] for l in lines], total
     chosen = set()
     if pred is not None:
